@@ -101,12 +101,17 @@ async def send_batch(datagrams, silence=None):
     rig = udptx.Rig(1)
     await rig.start()
     try:
-        for i, d in enumerate(datagrams):
-            if silence and i == silence[0]:
-                await rig.barrier()
-                await net.idle(silence[1])       # nothing arrives for a while (event-loop time, harness-owned clock)
-            await rig.send(rig.ports[0], d)
-        dead = await rig.barrier()
+        dead = None
+        try:
+            for i, d in enumerate(datagrams):
+                if silence and i == silence[0]:
+                    await rig.barrier()
+                    await net.idle(silence[1])       # nothing arrives for a while (event-loop time, harness-owned clock)
+                await rig.send(rig.ports[0], d)
+        except udptx.DeliveryStopped as exc:
+            dead = exc.ports
+        if dead is None:
+            dead = await rig.barrier()
         obs = noise(rig)
         obs["quiet"] = quiet(rig)
         obs["dead"] = dead
